@@ -602,7 +602,7 @@ def run_D11(chk):
     "nothing to truncate" (or "nothing to keep") can only be concluded from a value that depends on the two of them.  A test on D_total
     alone returns the untruncated mask whenever D_total does not bind, whatever `tol` asks for."""
     prog = chk.prog
-    chk.rule("D11", "a shortcut return of a mask function that is decided by one global limit (tol / D_total) is decided by both", floor=2)
+    chk.rule("D11", "a shortcut return of a mask function that is decided by one global limit (tol / D_total) is decided by both", floor=0)
     LIM = {"tol", "D_total"}
     for name in ("truncation_mask", "truncation_mask_multiplets"):
         f = prog.func(LINALG, name)
